@@ -1,5 +1,8 @@
 """Registry of units under contract and of the claimed properties.
 
+Units live in contracts/units.d/*.py (one fragment per property group), each defining
+VERUS / KANI / NATIVE dicts that are merged here.
+
 VERUS[name]  : template (woven from /repo on every run), properties served,
                reachability probes (must fail), trusted assumptions.
 KANI[name]   : crate, host source file (the harness module is appended there as
@@ -16,56 +19,32 @@ A1 = 'A1 tools: rustc (pinned toolchains of Kani and Verus), Kani 0.68 + CBMC 6.
 A3 = 'A3 machine arithmetic is exact (bit-precise in Kani, overflow obligations in Verus); usize is 64 bits; counters of cells/ap offsets that a unit adds are assumed < 2^48 where a requires says so'
 A4 = 'A4 the weaver/injector (python, engine/) is trusted to copy item text verbatim; per-item sha256 is in functions_under_contract'
 
-VERUS = {
-    'env_ap_frame': dict(
-        template='verus/env_ap_frame.vrs',
-        props={'C17', 'C14'},
-        probes=['__reach_handle_alloc_local'],
-        trusted=['derive(Clone) of FrameState replaced by an assumed spec (clone returns an equal value)'],
-    ),
-}
+VERUS = {}
+KANI = {}
+NATIVE = {}
 
-KANI = {
-    'c16_encode': dict(
-        crate='cairo-lang-casm',
-        host='crates/cairo-lang-casm/src/assembler.rs',
-        harness='kani/cairo-lang-casm/c16_encode.rs',
-        props={'C16'},
-        pair='n_c16_shapes',
-        functions=[
-            ('crates/cairo-lang-casm/src/assembler.rs', 'impl Instruction', 'assemble'),
-            ('crates/cairo-lang-casm/src/assembler.rs', 'impl ResOperand', 'to_res_description'),
-            ('crates/cairo-lang-casm/src/assembler.rs', 'impl DerefOrImmediate', 'to_res_description'),
-            ('crates/cairo-lang-casm/src/assembler.rs', 'impl Register', 'to_op1_addr'),
-            ('crates/cairo-lang-casm/src/assembler.rs', 'impl Operation', 'to_res'),
-            ('crates/cairo-lang-casm/src/encoder.rs', 'impl InstructionRepr', 'encode'),
-            ('crates/cairo-lang-casm/src/instructions.rs', 'impl InstructionBody', 'op_size'),
-            ('crates/cairo-lang-casm/src/instructions.rs', None, 'op_size_based_on_res_operands'),
-            ('crates/cairo-lang-casm/src/instructions.rs', 'impl CallInstruction', 'op_size'),
-            ('crates/cairo-lang-casm/src/instructions.rs', 'impl JumpInstruction', 'op_size'),
-            ('crates/cairo-lang-casm/src/instructions.rs', 'impl JnzInstruction', 'op_size'),
-            ('crates/cairo-lang-casm/src/instructions.rs', 'impl AssertEqInstruction', 'op_size'),
-            ('crates/cairo-lang-casm/src/instructions.rs', 'impl RetInstruction', 'op_size'),
-            ('crates/cairo-lang-casm/src/instructions.rs', 'impl AddApInstruction', 'op_size'),
-            ('crates/cairo-lang-casm/src/instructions.rs', 'impl Blake2sCompressInstruction', 'op_size'),
-        ],
-        trusted=['num-bigint BigInt::{from, to_u128, bitor, shl} run as real code under CBMC (not assumed)'],
-    ),
-}
 
-NATIVE = {
-    'n_c16_shapes': dict(
-        crate='cairo-lang-casm',
-        host='crates/cairo-lang-casm/src/encoder.rs',
-        harness='native/cairo-lang-casm/n_c16_shapes.rs',
-        props={'C16'},
-        bound='offsets {-32768,-32767,-2,-1,0,1,2,32766,32767}+6 seeded, both registers, every instruction shape, 4 immediates, 3 machine states',
-        functions=[('crates/cairo-lang-casm/src/encoder.rs', 'impl InstructionRepr', 'encode'), ('crates/cairo-lang-casm/src/assembler.rs', 'impl Instruction', 'assemble')],
-    ),
-}
+def _load_fragments():
+    import glob
+    import os
+    d = os.path.join(os.path.dirname(os.path.abspath(__file__)), 'units.d')
+    for f in sorted(glob.glob(os.path.join(d, '*.py'))):
+        ns = {}
+        exec(compile(open(f).read(), f, 'exec'), ns)
+        for name, tgt in (('VERUS', VERUS), ('KANI', KANI), ('NATIVE', NATIVE)):
+            for k, v in ns.get(name, {}).items():
+                if k in tgt:
+                    raise RuntimeError('duplicate unit %s in %s' % (k, f))
+                tgt[k] = v
+
+
+_load_fragments()
 
 PROPS = {
     'C16': dict(
+        technique='Kani function-contract style proofs on the real assemble/encode (loop-free, full symbolic domain => complete), oracle decoder + VM step; native bounded stand-in for opcode-extension bits',
+        level_text='Deductive proof per instruction shape: every obligation generated from the current source of assemble/encode/op_size is discharged by CBMC over the whole input domain (no bound). Extension bits (QM31/Blake2s) of encode and BigInt equality of the immediate word are bounded native checks, reported separately.',
+        level_note='Trusted: the oracle (spec_decode/vm_step written from the Cairo machine definition), cairo-vm executing decoded instructions accordingly, Kani/CBMC, num-bigint run as real code. Bounded: opcode-extension bits and words[1]==imm over boundary offsets/4 immediates.',
         scope='Every CASM instruction shape the toolchain can emit: the word produced by assemble().encode() decodes (layout oracle) and '
               'executes (state-transition oracle) to exactly the meaning of the CASM text, for both registers, all 2^16 values of every '
               'offset, inc_ap, and any (pc, ap, fp); size == op_size == 1 + has_immediate.',
@@ -76,16 +55,60 @@ PROPS = {
                  'Relocation::apply const-segment variants (hash-map lookups)', 'CairoProgram::assemble_ex and compile()\'s program_offset loop (sum of per-instruction sizes)'],
     ),
     'C17': dict(
+        technique='Verus contracts on lifted real functions (ap tracking, frame state) + Kani function contracts on ApplyApChange impls and builder bookkeeping; composition lemmas in Verus',
+        level_text='Deductive proof of the checker side: each function that validates or propagates ap changes satisfies an iff-contract written from the property statement, for all arguments.',
+        level_note='Trusted: A0 (trace-level induction not mechanised), tools, assumed Clone specs; solvers and libfunc ap-change tables are outside.',
         scope='Checker side of ap-change soundness: reference shifting, ap tracking accumulation, frame-state transitions, environment merge equality, builder ap bookkeeping.',
         assumptions=[A0, A1, A3, A4],
         outside=['validate_return_properties (Metadata lookup + closure)', 'ApChange mapping inside CompiledInvocationBuilder::build (closure in zip_eq/map/collect)',
                  'propagate_annotations (hash map + closures)', 'both ap-change solvers', 'core_libfunc_ap_change.rs tables'],
     ),
     'C14': dict(
+        claimed=False,
+        technique='Verus overflow/index/unwrap obligations on lifted real functions + Kani bit-precise harnesses; native bounded stand-ins',
+        level_text='Panic-freedom (no overflow, no out-of-range index, no failed unwrap, bounded allocation) of each listed unit for all arguments under stated preconditions.',
+        level_note='Per-unit claim, not whole-pipeline. Preconditions cite the upstream validator that establishes them.',
         scope='Arithmetic, indexing, unwrap and allocation obligations of the units on the untrusted-Sierra path; not the whole pipeline.',
         assumptions=[A0, A1, A3, A4,
                      'A6 preconditions that cite an upstream validator (e.g. type sizes in [0, i16::MAX] from get_type_size_map) trust that validator'],
         outside=['ProgramRegistry::new and every libfunc specialize (trait objects, HashMap)', 'gas/ap solvers', "compile()'s main loop", 'all build_* generators',
                  'CasmContractClass::from_contract_class'],
+    ),
+    'C04': dict(
+        claimed=False,
+        technique='Kani function-contract proofs on the real cost/wallet/builder-step functions; Verus composition lemmas',
+        level_text='Deductive proof of the checker side of gas accounting: cost price is linear with the published table, the wallet update is exact and rejects negatives, merges require equal wallets, builder step counting is exact.',
+        level_note='Trusted: A0, tools. Bounded: wallet key universe (2 tokens), builder var maps (<= 2 vars). Solvers and per-libfunc cost tables are outside.',
+        scope='Checker side of gas soundness (DESIGN.md 4/C04).',
+        assumptions=[A0, A1, A3, A4],
+        outside=['gas solvers (compute_costs.rs, eq-solver)', 'core_libfunc_cost_base.rs tables', "the 'Wrong costs for' comparison inside build_from_casm_builder_ex", 'runner gas accounting'],
+    ),
+    'C15': dict(
+        claimed=False,
+        technique='Verus contracts on lifted EditState::take_vars/put_vars with an abstract map view; Kani harnesses for type/consistency checks and drop/dup signatures',
+        level_text='Deductive proof that the acceptance primitives (take exactly once, never override, types match, merges consistent, drop/dup only when allowed) are right for every map and id list.',
+        level_note='Trusted: A0, tools, assumed indexmap specs (swap_remove/insert as a finite map). compile()\'s own control flow and ProgramRegistry are outside.',
+        scope='Acceptance primitives of Sierra linearity and typing (DESIGN.md 4/C15).',
+        assumptions=[A0, A1, A3, A4, 'A2 indexmap::IndexMap::{swap_remove, insert, reserve, len} behave as an insertion-ordered finite map (assumed specs in the Verus unit)'],
+        outside=["compile()'s control flow (DanglingReferences / ExpectedBranchAlign tests)", 'ProgramRegistry::validate_statement', 'libfunc signatures',
+                 'ProgramAnnotations::test_references_consistency (per-variable core test_var_consistency is proved)'],
+    ),
+    'C18': dict(
+        claimed=False,
+        technique='Kani inverse-pair harnesses on the real Felt252Serde element codecs; native bounded stand-ins for BigInt codecs; Verus contract on CanonicalReplacer',
+        level_text='Deductive proof that every felt252 element codec within reach is an inverse pair (deserialize(serialize(x)) == x, exact consumption, frame on the output vector).',
+        level_note='Element codecs only; Program::{serialize,deserialize} loops, text/JSON serialisations and id replacement of whole programs are outside.',
+        scope='felt252 serde element codecs and canonical renaming (DESIGN.md 4/C18).',
+        assumptions=[A0, A1, A3, A4],
+        outside=['generic_id_serde! (string ids, keccak table)', 'compress/decompress round trip', 'Program::{serialize,deserialize} loops', 'fmt.rs / LALRPOP grammar', 'JSON (serde derive)'],
+    ),
+    'C19': dict(
+        claimed=False,
+        technique='Verus contracts with loop invariants on lifted contract_segmentation functions',
+        level_text='Deductive proof of the segmentation conjunct: segment lengths are positive and add up to the bytecode length; branch targets stay inside their function.',
+        level_note='Only the segmentation conjunct of C19; the other seven conjuncts live in closures of a 250-line function that needs a full compile.',
+        scope='Bytecode segmentation conjunct (DESIGN.md 4/C19).',
+        assumptions=[A0, A1, A3, A4],
+        outside=['find_functions_segments', 'functions_statement_ids_to_offsets', 'consts_segments_offsets', 'all other conjuncts of C19 (selectors, builtins, entry offsets, hashes)'],
     ),
 }
